@@ -23,10 +23,10 @@ for sid, r in sorted(conf.items()):
     needs = re.sub(r'\s+', ' ', m.group(1)).strip() if m else ''
     if len(needs) > 600:
         needs = needs[:600].rsplit(' ', 1)[0] + ' ...'
-    prop = re.match(r'R2-(C\d+)-', sid).group(1)
+    prop = re.match(r'R\d-(C\d+)-', sid).group(1)
     ov = ' -overlay <json blanking the other pkg/core test files>' if r['pkg'] == 'pkg/core' else ''
     meta = {
-        'id': sid, 'round': 2, 'breaks_property': prop, 'what': title,
+        'id': sid, 'round': int(sid[1]), 'breaks_property': prop, 'what': title,
         'needs_to_manifest': needs,
         'demo': {'file': 'demo_test.go', 'copy_into': r['pkg'], 'run': f"go test -vet=off -count=1{ov} -run '{r['run']}' ./{r['pkg']}/"},
         'patch_applies_to_repo_head': True,
